@@ -278,7 +278,7 @@ def _bounded_fallback(modname, clsname, prop, tier):
     except Exception:
         return {'error': traceback.format_exc()[-800:]}
     r['scope'] = ('real %s.%s; keys from a universe of 3 (+1 unhashable, +1 raising, +1 raising key generation); maxsize in {1,2}; '
-                  'purge on/off; archive none/dict; all operation sequences (call, clear, load, dump, archived, key, '
+                  'purge on/off; archive none/dict (C07, C02: also a dict archive that rejects the value of key 0); all operation sequences (call, clear, load, dump, archived, key, '
                   'lookup, info) up to depth %d from the freshly decorated function, deduplicated by abstract state'
                   % (modname, clsname, depth))
     return r
